@@ -488,7 +488,9 @@ contract(
     yields=YIELDS_UPDATE,
     notes=['segment contract: entry state = exit state of the IPv4 section; the per-family MPNLRICollection objects are opaque and their attribute generators are used through clause yields:0 of their own contracts'],
     canaries=[
-        ('msg_size - len(withdraws + announced + mp_reach),', 'msg_size - len(withdraws + announced),'),
+        # (the former first canary, dropping mp_reach from the room of MP_UNREACH, became an equivalent mutant when the
+        # withdraws got messages of their own: mp_reach is empty there)
+        ('                    msg_size - len(withdraws + announced + mp_reach),', '                    msg_size + 1 - len(withdraws + announced + mp_reach),'),
         ('for mprnlri in mp_announce.packed_reach_attributes(negotiated, msg_size - len(withdraws + announced)):', 'for mprnlri in mp_announce.packed_reach_attributes(negotiated, msg_size):'),
     ],
 )
